@@ -36,13 +36,18 @@ MANIFEST = dict(
          "would give.  Where the code leaves the evaluator's fragment the structural form of the rule is used instead.  Two clauses are "
          "decided symbolically for all inputs: (1e) the slice row count, in Python and in C++, is evaluated as an integer polynomial over "
          "stop-start = q*step + r (cases r = 0 and 1 <= r < step, // and % by the step resolved by polynomial division and sign "
-         "reasoning valid for every value) and must be the polynomial q resp. q+1; (7j) the text row skipper is analysed over a finite "
+         "reasoning valid for every value) and must be the polynomial q resp. q+1 -- when a decision is not the same for all slices (a "
+         "division by a constant, a comparison of the remainder with a fraction of the step) the count is evaluated over infinite "
+         "sub-families step = c*m + j (every m >= m0), stop-start = q*step + r0 or q*step + step - r1 (every q), which can only refute; (7j) the text row skipper is analysed over a finite "
          "abstract domain of what each read consumed (newline / other character / chunk with or without newline) with the balance "
          "newlines consumed - rows counted, which must be 0 at every return; (7i) the file cursor of the binary slice reader is followed "
          "along every path as a polynomial in row1, step and the row count (goto_offset = 0, skip_binary_rows(e) adds e, fread of k rows "
          "adds k, a counted loop moves a round-independent distance per round): the first row read must be row1, consecutive reads step "
          "rows apart, nrows reads of one row size.  (2a) also accepts a row array that a dominating test found empty or strictly "
-         "ascending in place of a numpy.unique result (rows are one-dimensional lists by the quantifier).",
+         "ascending in place of a numpy.unique result (rows are one-dimensional lists by the quantifier).  (3a) the order of the column "
+         "numbers returned by get_colnums is followed by reaching definitions from the request: a container whose element i is computed "
+         "from element i of the request, also after an order-keeping removal of repeats (X[sort(first-occurrence index)], dict.fromkeys), "
+         "has the order of the request and is reported unless a caller sorts it.",
     note="Not decided: element-wise equality with in-memory indexing for all table sizes (numpy indexing, libc reads and the per-column "
          "text scanner are trusted; the evaluation is exhaustive only over small model tables). Assumes positive slice steps (property "
          "quantifier). Trusted: slice.indices, numpy.unique, CPython ast, clang AST, SWIG naming.",
@@ -55,7 +60,7 @@ MANIFEST = dict(
 # specification (every `eval::` instance), by term equality, reaching definitions, effect analysis or dominance over resolved calls.
 # Every other rule instance of this check is a template rule (vcheck.core.Check.ob / set_templates).
 SEMANTIC = ('R02.1b', 'R02.1c', 'R02.1e', 'R02.2a', 'R02.2b', 'R02.2c', 'R02.4', 'R02.6b', 'R02.6c', 'R02.7i',
-            'R02.1f::eval::', 'R02.3a::eval::', 'R02.3b::eval::', 'R02.3c::eval::', 'R02.3d::eval::',
+            'R02.1f::eval::', 'R02.3a::eval::', 'R02.3a::sem::', 'R02.3b::eval::', 'R02.3c::eval::', 'R02.3d::eval::',
             'R02.5b::eval::', 'R02.5c::eval::', 'R02.5d::eval::', 'R02.5e::eval::', 'R02.5f::eval::',
             'R02.6a::eval::', 'R02.6d::eval::', 'R02.6e::eval::',
             'R02.7a::eval::', 'R02.7b::eval::', 'R02.7e::eval::', 'R02.7f::eval::', 'R02.7j::eval::', 'R02.7j::sem::')
@@ -587,6 +592,7 @@ class _CeilDom(object):
         self.base = (self.a, self.q, self.u, self.t)
         self.d = self.q * self.s + self.rv
         self.want = self.q + (0 if case == 0 else 1)
+        self.undivided = set()      # constant divisors met (their result depends on the residue of the step: see _FamDom)
 
     def nonneg(self, p):
         """p >= 0 for every value of the symbols (sufficient: all coefficients over the shifted non-negative variables are >= 0)"""
@@ -611,6 +617,8 @@ class _CeilDom(object):
         if d == 1:
             return n, sp.Integer(0)
         if sp.expand(d - self.s) != 0:
+            if d.is_Integer and 2 <= abs(int(d)) <= 12:
+                self.undivided.add(abs(int(d)))
             raise _Und("division by %s, which is not the slice step" % d)
         n = sp.expand(n)
         if n.free_symbols - {self.a, self.q, self.r, self.s}:
@@ -682,6 +690,154 @@ class _CeilDom(object):
                        "stop-start = %d and step = %d gets %d rows instead of %d" % (
                            "r = 0" if self.case == 0 else "1 <= r < step", sp.expand(sp.sympify(res)), self.want, dv, sv, wantv + val, wantv)
         raise _Und("count %s differs from %s as a polynomial but no small witness was found" % (res, self.want))
+
+
+class _FamDom(_CeilDom):
+    """A sub-family of the normalised slices, used only when the evaluation over ALL slices (_CeilDom) meets a decision that is not
+    the same for every slice (typically a division by a constant, whose result depends on the residue of the step):
+
+        step = c*m + j   for EVERY m >= m0        (c, j constants, 0 <= j < c)
+        stop - start = q*step + r                 for every q >= 0, start >= 0, with r = r0 ('lo', r0) or r = step - r1 ('hi', r1)
+
+    The count is evaluated as an integer polynomial in (start, q, m); every division and comparison must come out the same way for
+    all members of the family, else there is no result for the family.  A family in which the count is a polynomial other than the
+    ceiling proves a violation (the family consists of valid slices, and the witness is one of them); families can never prove the
+    rule (they do not cover all slices), so this domain only ever turns "no verdict" into VIOLATION."""
+
+    def __init__(self, c, j, rkind, rconst):
+        import sympy as sp
+        self.sp = sp
+        self.c, self.j, self.rkind, self.rconst = c, j, rkind, rconst
+        self.a, self.q = sp.symbols("start q", integer=True)
+        self.m, self.t = sp.symbols("m _t", integer=True)
+        # m0: the remainder is inside one step (0 <= r <= step-1) and small against step/c, so that comparisons of r with
+        # fractions of the step are the same for every member
+        m0 = rconst + 2
+        while c * m0 + j < 2 * rconst + 2:
+            m0 += 1
+        self.m0 = m0
+        self.s = sp.expand(c * self.m + j)
+        self.rv = sp.Integer(rconst) if rkind == "lo" else sp.expand(self.s - rconst)
+        self.shift = {self.m: m0 + self.t}
+        self.base = (self.a, self.q, self.t)
+        self.d = sp.expand(self.q * self.s + self.rv)
+        self.want = self.q + (0 if (rkind == "lo" and rconst == 0) else 1)
+        self.case = None
+        self.undivided = set()      # constant divisors that could not be resolved in this family
+
+    def describe(self):
+        step = ("%d*m" % self.c if self.c != 1 else "m") + (" + %d" % self.j if self.j else "")
+        r = str(self.rconst) if self.rkind == "lo" else "step - %d" % self.rconst
+        return "step = %s (every m >= %d) and stop-start = q*step + %s (every q >= 0)" % (step, self.m0, r)
+
+    def floordiv(self, n, d):
+        """(floor(n/d), n mod d) with Python's sign convention, when one integer polynomial A satisfies 0 <= n - A*d <= d-1 for every
+        member of the family; candidates for A come from polynomial division, the two inequalities are what is checked"""
+        sp = self.sp
+        n, d = sp.expand(sp.sympify(n)), sp.expand(sp.sympify(d))
+        if d == 1:
+            return n, sp.Integer(0)
+        if (n.free_symbols | d.free_symbols) - {self.a, self.q, self.m}:
+            raise _Und("division of a term with unknown symbols: %s / %s" % (n, d))
+        if self.nonneg(-d - 1):
+            A, B = self.floordiv(-n, -d)
+            return A, -B
+        if not self.nonneg(d - 1):
+            raise _Und("sign of the divisor %s is not the same for all slices" % d)
+        gens = (self.m, self.q, self.a)
+        try:
+            Q, _ = sp.div(sp.Poly(n, *gens, domain="QQ"), sp.Poly(d, *gens, domain="QQ"))
+        except Exception as e:
+            raise _Und("polynomial division failed: %s" % e)
+        A0 = sp.Integer(0)
+        for mon, co in Q.terms():
+            term = sp.Integer(sp.floor(co))
+            for g, k in zip(gens, mon):
+                term = term * g ** k
+            A0 += term
+        for k in (0, 1, -1, 2, -2):
+            A = sp.expand(A0 + k)
+            B = sp.expand(n - A * d)
+            if self.nonneg(B) and self.nonneg(d - 1 - B):
+                return A, B
+        if d.is_number:
+            self.undivided.add(int(d))
+        raise _Und("%s // %s is not one polynomial for all slices of the family" % (n, d))
+
+    def truncdiv(self, n, d):
+        if not self.nonneg(self.sp.sympify(d) - 1):
+            raise _Und("C division by %s, whose sign is not known to be positive" % d)
+        if self.nonneg(n):
+            return self.floordiv(n, d)
+        if self.nonneg(-self.sp.sympify(n)):
+            qq, rr = self.floordiv(-self.sp.sympify(n), d)
+            return -qq, -rr
+        raise _Und("sign of the dividend %s is not the same for all slices" % n)
+
+    def verdict(self, res):
+        sp = self.sp
+        diff = sp.expand((sp.sympify(res) - self.want).subs(self.shift))
+        if diff == 0:
+            return None
+        if diff.free_symbols - set(self.base):
+            raise _Und("count %s depends on more than the slice" % res)
+        import itertools as it
+        for tv, qv, av in it.product(range(0, 3), range(0, 4), range(0, 2)):
+            val = diff.subs({self.a: av, self.q: qv, self.t: tv})
+            if val != 0:
+                sub = {self.m: self.m0 + tv, self.q: qv, self.a: av}
+                sv, dv, wantv = int(self.s.subs(sub)), int(self.d.subs(sub)), int(sp.sympify(self.want).subs(sub))
+                return "for every slice with %s the count is %s and not %s: e.g. a slice with stop-start = %d and step = %d gets %d " \
+                       "rows instead of %d" % (self.describe(), sp.expand(sp.sympify(res)), self.want, dv, sv, wantv + int(val), wantv)
+        raise _Und("count %s differs from %s as a polynomial but no small witness was found" % (res, self.want))
+
+
+def _lcm(xs):
+    import math
+    out = 1
+    for x in xs:
+        out = out * x // math.gcd(out, x)
+    return out
+
+
+def _decide_count(count):
+    """count(dom) -> the row count as a term of the domain (raises _Und outside the fragment).
+    (True, text): the count is the ceiling for ALL normalised slices; (False, witness text): it is not; raises _Und: no verdict.
+    First the two cases that together cover all slices; when they are not decided, sub-families of slices (_FamDom), which can
+    only refute."""
+    import sympy as sp
+    consts = set()
+    try:
+        seen = []
+        for case in (0, 1):
+            dom = _CeilDom(case)
+            try:
+                n = count(dom)
+                w = dom.verdict(n)
+            finally:
+                consts |= dom.undivided
+            if w is not None:
+                return False, w
+            seen.append(str(sp.expand(n)))
+        return True, "with stop-start = q*step + r: %s rows when r = 0 and %s rows when 1 <= r < step" % (seen[0], seen[1])
+    except _Und as general:
+        tried = set()
+        for _round in range(3):
+            c = _lcm(consts) if consts else 1
+            if c > 12 or c in tried:
+                break
+            tried.add(c)
+            for j in range(c):
+                for rkind, rconst in (("lo", 0), ("lo", 1), ("hi", 1), ("lo", 2), ("hi", 2), ("lo", 3), ("hi", 3)):
+                    dom = _FamDom(c, j, rkind, rconst)
+                    try:
+                        w = dom.verdict(count(dom))
+                    except (_Und, _CountRaise):
+                        consts |= {k for k in dom.undivided if 2 <= k <= 12}
+                        continue
+                    if w is not None:
+                        return False, "%s (over all slices at once the count is not one term: %s)" % (w, general)
+        raise general
 
 
 def _as_int(dom, v):
@@ -1003,9 +1159,7 @@ def _sym_count_py(repo):
     if not (isinstance(sp_, sp.Symbol) and isinstance(se, sp.Symbol) and (isinstance(st, sp.Symbol) or (isinstance(st, sp.Integer) and st >= 0))
             and len({st, sp_, se}) == 3):
         raise _Und("start/stop/step handed to the C++ reader are not three independent inputs (%s, %s, %s)" % (st, sp_, se))
-    seen = []
-    for case in (0, 1):
-        dom = _CeilDom(case)
+    def count(dom):
         a = st if isinstance(st, sp.Integer) else dom.a
         bind = {sp_: a + dom.d, se: dom.s}
         if isinstance(st, sp.Symbol):
@@ -1020,12 +1174,12 @@ def _sym_count_py(repo):
             raise _Und("the path to the C++ slice reader raises")
         if not isinstance(buf, _Buf):
             raise _Und("the buffer handed to the C++ slice reader is not a fresh numpy.zeros/empty array")
-        n = _as_int(dom, buf.shape)
-        w = dom.verdict(n)
-        if w is not None:
-            return False, "%s (buffer allocated in %s)" % (w, fi.name)
-        seen.append(str(sp.expand(n)))
-    return True, "symbolically, with stop-start = q*step + r: %s rows when r = 0 and %s rows when 1 <= r < step" % (seen[0], seen[1])
+        return _as_int(dom, buf.shape)
+
+    ok, text = _decide_count(count)
+    if not ok:
+        return False, "%s (buffer allocated in %s)" % (text, fi.name)
+    return True, "symbolically, " + text
 
 
 class _CCount(object):
@@ -1212,9 +1366,7 @@ def _sym_count_c(fn):
     ps = cfront.params_of(fn)
     if len(ps) != 3:
         raise _Und("count helper does not take (row1, row2, step)")
-    seen = []
-    for case in (0, 1):
-        dom = _CeilDom(case)
+    def count(dom):
         ev = _CCount(dom, {ps[0]: dom.a, ps[1]: dom.a + dom.d, ps[2]: dom.s})
         try:
             n = ev.run(fn)
@@ -1222,11 +1374,31 @@ def _sym_count_c(fn):
             raise _Und("the helper throws for valid slices")
         if n is None:
             raise _Und("no value returned")
-        w = dom.verdict(n)
-        if w is not None:
-            return False, w
-        seen.append(str(sp.expand(n)))
-    return True, "symbolically, with row2-row1 = q*step + r: %s rows when r = 0 and %s rows when 1 <= r < step" % (seen[0], seen[1])
+        return n
+
+    ok, text = _decide_count(count)
+    if not ok:
+        return False, "%s%s" % (text, _c_count_source(fn))
+    return True, "symbolically, " + text
+
+
+def _c_count_source(fn):
+    """the returned count expression of the C++ helper as written, with the defining expression of a returned local"""
+    try:
+        rets = [x for x in cfront.walk(cfront.body_of(fn)) if x.get("kind") == "ReturnStmt" and x.get("inner")]
+        if not rets:
+            return ""
+        r = cfront.strip(rets[-1]["inner"][0])
+        text = cfront.render(r)
+        if r.get("kind") == "DeclRefExpr":
+            for x in cfront.walk(cfront.body_of(fn)):
+                if x.get("kind") == "VarDecl" and x.get("name") == text and "init" in x:
+                    ini = [c for c in x.get("inner", []) if isinstance(c, dict) and c.get("kind")]
+                    if ini:
+                        text = "%s = %s" % (text, cfront.render(ini[-1]))
+        return " [count returned by %s: `%s`]" % (fn.get("name", "the helper"), text)
+    except Exception:
+        return ""
 
 
 def _r02_1_structural(chk, repo, F):
@@ -1588,11 +1760,29 @@ def _unique_status(ctx, at, e, depth=0):
             if inner is None:
                 return "unknown"
             return _unique_status(ctx, at, inner, depth + 1)
+        src = _dedup_in_order_source(ctx, at, e)
+        if src is not None:
+            st = _unique_status(ctx, at, src, depth + 1)
+            return st if st in ("yes", "no") else "unknown"
+        if nm == "tolist" and isinstance(e.func, ast.Attribute) and not e.args:
+            return _unique_status(ctx, at, e.func.value, depth + 1)      # same elements in the same order
+        if nm in ("list", "tuple") and isinstance(e.func, ast.Name) and len(e.args) == 1 and not e.keywords:
+            return _unique_status(ctx, at, e.args[0], depth + 1)
         return "unknown"
     if isinstance(e, ast.Subscript) and norm(e.slice) == "0" and _is_mask_positions(_follow_single(ctx, at, e.value)):
         return "yes"                   # numpy.where(mask)[0] / mask.nonzero()[0]
+    if isinstance(e, ast.Subscript):
+        src = _dedup_in_order_source(ctx, at, e)
+        if src is not None:
+            # the distinct values of src in the order of their first occurrence: ascending for every request only if src is
+            st = _unique_status(ctx, at, src, depth + 1)
+            return st if st in ("yes", "no") else "unknown"
     if isinstance(e, (ast.List, ast.Tuple, ast.Constant)):
         return "no"
+    if isinstance(e, (ast.ListComp, ast.GeneratorExp)) and len(e.generators) == 1 and not e.generators[0].ifs and not e.generators[0].is_async \
+            and isinstance(e.generators[0].target, ast.Name) and isinstance(e.generators[0].iter, ast.Name) \
+            and _is_request(ctx.fi, e.generators[0].iter) and _per_element(e.elt, e.generators[0].target.id):
+        return "no"                    # one value per element of the request, in the order of the request
     if isinstance(e, ast.Name):
         defs = ctx.IN.get(at.id, {}).get(e.id)
         if not defs:
@@ -1609,7 +1799,10 @@ def _unique_status(ctx, at, e, depth=0):
             dn = cfg.node(d)
             a = dn.ast
             if dn.kind == "stmt" and isinstance(a, ast.Assign) and len(a.targets) == 1 and isinstance(a.targets[0], ast.Name):
-                res.add(_unique_status(ctx, dn, a.value, depth + 1))
+                if _is_allocation(a.value) and _filled_in_request_order(ctx, e.id, dn):
+                    res.add("no")      # element i is computed from element i of the request: the order (and the repeats) of the request
+                else:
+                    res.add(_unique_status(ctx, dn, a.value, depth + 1))
             elif dn.kind == "stmt" and isinstance(a, ast.Assign) and len(a.targets) == 1 and isinstance(a.targets[0], (ast.Tuple, ast.List)) \
                     and len(a.targets[0].elts) == 1 and _is_mask_positions(a.value):
                 res.add("yes")         # (v,) = numpy.where(mask)
@@ -1619,6 +1812,182 @@ def _unique_status(ctx, at, e, depth=0):
             return "no"
         return "yes" if res == {"yes"} else "unknown"
     return "unknown"
+
+
+def _unique_return_index(ctx, at, e):
+    """e is the `return_index` output of numpy.unique(X, return_index=True) -- the position of the first occurrence of each distinct
+    value of X: X, else None.  Accepts numpy.unique(X, return_index=True)[1] and a name bound by `u, first = numpy.unique(...)`."""
+    def call_src(c):
+        if isinstance(c, ast.Call) and call_name(c) == "unique" and len(c.args) == 1:
+            ri = kwarg(c, "return_index")
+            if isinstance(ri, ast.Constant) and ri.value is True and kwarg(c, "axis") is None:
+                return c.args[0]
+        return None
+
+    if isinstance(e, ast.Subscript) and norm(e.slice) == "1":
+        return call_src(_follow_single(ctx, at, e.value))
+    if isinstance(e, ast.Name):
+        defs = ctx.IN.get(at.id, {}).get(e.id) or ()
+        if len(defs) != 1:
+            return None
+        d = next(iter(defs))
+        if d == ctx.cfg.entry.id:
+            return None
+        a = ctx.cfg.node(d).ast
+        if isinstance(a, ast.Assign) and len(a.targets) == 1 and isinstance(a.targets[0], (ast.Tuple, ast.List)) and len(a.targets[0].elts) >= 2 \
+                and isinstance(a.targets[0].elts[1], ast.Name) and a.targets[0].elts[1].id == e.id:
+            return call_src(a.value)
+        if isinstance(a, ast.Assign) and len(a.targets) == 1 and isinstance(a.targets[0], ast.Name) and isinstance(a.value, ast.Subscript):
+            return _unique_return_index(ctx, ctx.cfg.node(d), a.value)
+    return None
+
+
+def _dedup_in_order_source(ctx, at, e):
+    """e removes the repeats of a sequence X but keeps the order of first occurrence: X, else None.
+    X[sort(first)] with first = numpy.unique(X, return_index=True)[1];  list / tuple / numpy.array of dict.fromkeys(X) or
+    OrderedDict.fromkeys(X);  sorted(set(X), key=X.index)"""
+    if isinstance(e, ast.Subscript) and isinstance(e.value, ast.Name):
+        idx = _follow_single(ctx, at, e.slice)
+        if isinstance(idx, ast.Call) and call_name(idx) in ("sort", "sorted") and len(idx.args) == 1 and not idx.keywords:
+            src = _unique_return_index(ctx, at, idx.args[0])
+            if src is not None and norm(src) == e.value.id:
+                return e.value
+        return None
+    if isinstance(e, ast.Call):
+        nm = call_name(e)
+        if nm in ("list", "tuple") and len(e.args) == 1 and not e.keywords:
+            inner = _follow_single(ctx, at, e.args[0])
+            if isinstance(inner, ast.Call) and call_name(inner) == "fromkeys" and len(inner.args) == 1 and not inner.keywords:
+                return inner.args[0]
+        if nm == "fromkeys" and len(e.args) == 1 and not e.keywords:
+            return e.args[0]
+        if nm == "sorted" and len(e.args) == 1 and isinstance(e.args[0], ast.Call) and call_name(e.args[0]) in ("set", "frozenset") \
+                and len(e.args[0].args) == 1:
+            k = kwarg(e, "key")
+            x = e.args[0].args[0]
+            if k is not None and isinstance(x, ast.Name) and norm(k) == x.id + ".index" and kwarg(e, "reverse") is None:
+                return x
+    return None
+
+
+_ALLOCATORS = ("zeros", "empty", "ones", "ndarray", "zeros_like", "empty_like", "full")
+_PURE_USES = ("len", "list", "tuple", "sorted", "set", "frozenset", "fromkeys", "enumerate", "zip", "iter", "str", "repr", "print", "min", "max", "sum",
+              "any", "all", "isinstance", "unique", "sort", "array", "asarray", "asanyarray", "ascontiguousarray", "atleast_1d", "argsort",
+              "astype", "copy", "view", "tolist", "ravel", "flatten", "append", "where", "nonzero", "flatnonzero", "diff", "index")
+
+
+def _is_allocation(v):
+    """a fresh container whose content does not depend on the order of anything: numpy.zeros(n) & co, [], [c] * n"""
+    if isinstance(v, ast.Call) and call_name(v) in _ALLOCATORS and isinstance(v.func, ast.Attribute) and isinstance(v.func.value, ast.Name) \
+            and v.func.value.id in ("numpy", "np"):
+        return True
+    if isinstance(v, ast.List) and not v.elts:
+        return True
+    if isinstance(v, ast.Call) and call_name(v) == "list" and not v.args and not v.keywords:
+        return True
+    return isinstance(v, ast.BinOp) and isinstance(v.op, ast.Mult) and isinstance(v.left, ast.List) and len(v.left.elts) == 1 \
+        and isinstance(v.left.elts[0], ast.Constant)
+
+
+def _is_request(fi, x):
+    """x is the caller's request (a parameter), possibly through a conversion that keeps the order of the elements"""
+    x = rules.expand(x, fi.node)
+    for _ in range(4):
+        if isinstance(x, ast.Call) and call_name(x) in _PASSTHROUGH + ("list", "tuple"):
+            nx_ = x.func.value if isinstance(x.func, ast.Attribute) and not (isinstance(x.func.value, ast.Name) and x.func.value.id in ("numpy", "np")) \
+                else (x.args[0] if x.args else None)
+            if nx_ is None:
+                return False
+            x = nx_
+    return isinstance(x, ast.Name) and x.id in set(p for p in fi.params[1:] if not p.startswith("*"))
+
+
+def _per_element(v, elem, container=None):
+    """v is a function of the element `elem` (text) alone: the element, a cast of it, a look-up table[elem], a method self.f(elem)"""
+    while isinstance(v, ast.Call) and call_name(v) in ("int", "int64", "intp", "long") and len(v.args) == 1 and not v.keywords:
+        v = v.args[0]
+    if norm(v) == elem:
+        return True
+    if isinstance(v, ast.Subscript) and norm(v.slice) == elem and isinstance(v.ctx, ast.Load):
+        return dotted_name(v.value) is not None and dotted_name(v.value) != container
+    if isinstance(v, ast.Call) and len(v.args) == 1 and not v.keywords and norm(v.args[0]) == elem:
+        return (dotted_name(v.func) or "").startswith("self.")
+    return False
+
+
+def _filled_in_request_order(ctx, name, alloc):
+    """The container `name` (allocated at CFG node `alloc`) is filled by ONE loop that visits every element of the caller's request
+    in order, without exit or filter, and stores as element i a value computed from element i of the request alone (the element
+    itself, a cast, a per-name look-up); nothing else stores into it, sorts it in place or hands it to code that could.  Then its
+    content has the order and the repeats of the request: for a request that is not ascending it is not ascending either."""
+    fi = ctx.fi
+    fn = fi.node
+
+    def request(x):
+        return _is_request(fi, x)
+
+    def per_element(v, elem):
+        return _per_element(v, elem, name)
+
+    def element(it, target):
+        if isinstance(it, ast.Call) and norm(it.func) == "range" and len(it.args) == 1 and not it.keywords and isinstance(target, ast.Name):
+            n = it.args[0]
+            src = n.value if isinstance(n, ast.Attribute) and n.attr == "size" else \
+                (n.args[0] if isinstance(n, ast.Call) and norm(n.func) == "len" and len(n.args) == 1 else None)
+            if src is not None and isinstance(src, ast.Name) and request(src):
+                return target.id, "%s[%s]" % (src.id, target.id)
+        elif isinstance(it, ast.Call) and norm(it.func) == "enumerate" and len(it.args) == 1 and not it.keywords and isinstance(target, ast.Tuple) \
+                and len(target.elts) == 2 and isinstance(it.args[0], ast.Name) and request(it.args[0]):
+            return norm(target.elts[0]), norm(target.elts[1])
+        elif isinstance(target, ast.Name) and isinstance(it, ast.Name) and request(it):
+            return None, target.id
+        return None, None
+
+    fills = []        # the statements that store into the container
+    loops = 0
+    for x in walk_no_nested(fn):
+        if isinstance(x, ast.For) and not x.orelse and not any(isinstance(y, (ast.Break, ast.Continue, ast.Return, ast.If, ast.Try, ast.While, ast.For))
+                                                            for b in x.body for y in ast.walk(b)):
+            idx, elem = element(x.iter, x.target)
+            if elem is None:
+                continue
+            for b in x.body:
+                if isinstance(b, ast.Assign) and len(b.targets) == 1 and isinstance(b.targets[0], ast.Subscript) and norm(b.targets[0].value) == name:
+                    if idx is not None and norm(b.targets[0].slice) == idx and per_element(b.value, elem):
+                        fills.append(b)
+                        loops += 1
+                if isinstance(b, ast.Expr) and isinstance(b.value, ast.Call) and isinstance(b.value.func, ast.Attribute) and b.value.func.attr == "append" \
+                        and norm(b.value.func.value) == name and len(b.value.args) == 1 and per_element(b.value.args[0], elem):
+                    fills.append(b.value)
+                    loops += 1
+    if loops != 1:
+        return False
+    # nothing else changes the container
+    ok_nodes = {id(f) for f in fills}
+    for x in walk_no_nested(fn):
+        if isinstance(x, (ast.Assign, ast.AugAssign, ast.AnnAssign, ast.Delete)):
+            tgts = x.targets if isinstance(x, (ast.Assign, ast.Delete)) else [x.target]
+            for t in tgts:
+                for tt in rules._flat_targets(t):
+                    base = tt
+                    while isinstance(base, (ast.Subscript, ast.Attribute)):
+                        base = base.value
+                    if isinstance(base, ast.Name) and base.id == name:
+                        if tt is base and isinstance(x, ast.Assign) and x is alloc.ast:
+                            continue
+                        if id(x) in ok_nodes:
+                            continue
+                        return False
+        if isinstance(x, ast.Call) and id(x) not in ok_nodes:
+            uses = [a for a in list(x.args) + [k.value for k in x.keywords] if isinstance(a, ast.Name) and a.id == name]
+            recv = isinstance(x.func, ast.Attribute) and isinstance(x.func.value, ast.Name) and x.func.value.id == name
+            if kwarg(x, "out") is not None and norm(kwarg(x, "out")) == name:
+                return False
+            if recv and (x.func.attr not in _PURE_USES or x.func.attr in ("sort", "append")):
+                return False           # name.sort() sorts in place; any unknown method may change it
+            if uses and call_name(x) not in _PURE_USES:
+                return False
+    return True
 
 
 def _is_mask_positions(e):
@@ -2000,6 +2369,40 @@ def _every_name_looked_up(repo, gc, tables):
     return False
 
 
+def _sorted_downstream(repo, gc):
+    """name of a method of the class that puts the result of `gc` (directly or through one forwarding helper) into ascending order
+    itself -- numpy.unique / sort / sorted applied to the variable that holds the result --, else None"""
+    producers = {gc.name}
+    for _ in range(2):
+        for q, f in repo.funcs.items():
+            if f.cls != gc.cls or f.name in producers or not q.startswith(U):
+                continue
+            for x in walk_no_nested(f.node):
+                if isinstance(x, ast.Return) and x.value is not None:
+                    e = rules.expand(x.value, f.node)
+                    if any(isinstance(y, ast.Call) and (dotted_name(y.func) or "") in {"self." + p for p in producers} for y in ast.walk(e)):
+                        producers.add(f.name)
+    for q, f in repo.funcs.items():
+        if f.cls != gc.cls or f.name == gc.name or not q.startswith(U):
+            continue
+        holders = set()
+        for x in walk_no_nested(f.node):
+            if isinstance(x, ast.Assign) and any(isinstance(y, ast.Call) and (dotted_name(y.func) or "") in {"self." + p for p in producers}
+                                                 for y in ast.walk(x.value)):
+                for t in x.targets:
+                    holders |= {tt.id for tt in rules._flat_targets(t) if isinstance(tt, ast.Name)}
+        if f.name == "_read_columns" and len(f.params) > 1:
+            holders.add(f.params[1])
+        for x in walk_no_nested(f.node):
+            if isinstance(x, ast.Call) and call_name(x) in ("unique", "sort", "sorted"):
+                args = list(x.args) + ([x.func.value] if isinstance(x.func, ast.Attribute) else [])
+                if any((isinstance(y, ast.Name) and y.id in holders) or
+                       (isinstance(y, ast.Call) and (dotted_name(y.func) or "") in {"self." + p for p in producers})
+                       for a in args for y in ast.walk(a)):
+                    return f.name
+    return None
+
+
 def _r02_3_structural(chk, repo, F):
     missing = [k for k in ("get_colnums", "get_colnum", "_read_columns", "_get_colnums_to_read") if F[k] is None]
     if missing:
@@ -2015,6 +2418,19 @@ def _r02_3_structural(chk, repo, F):
     chk.ob("R02.3a", gc.qualname + "::returns-unique-sorted", bool(rets) and all(x == "yes" for x in sts), gc.where(),
            "column numbers are returned distinct and ascending -- through numpy.unique, or as the positions of the marked entries of a "
            "mask (file order, no repeats): %s" % sts)
+    # the same condition as a semantic instance: a verdict only when the order of the returned numbers is positively known (reaching
+    # definitions and the data flow from the request), however the function is laid out
+    if rets and all(x == "yes" for x in sts):
+        chk.ob("R02.3a", "sem::" + gc.qualname + "::result-in-file-order", True, gc.where(),
+               "the column numbers returned are distinct and ascending (file order) on every path")
+    elif "no" in sts:
+        bad = rets[sts.index("no")]
+        later = _sorted_downstream(repo, gc)
+        chk.ob("R02.3a", "sem::" + gc.qualname + "::result-in-file-order", None if later else False, gc.where(bad.ast),
+               "the column numbers returned (`%s`) keep the order in which the names were requested (each number is computed from the "
+               "name at the same position of the request, and repeats are at most removed in place, not by sorting): a column list that "
+               "is not in file order reaches the reader -- which only moves forward through a row -- out of file order%s"
+               % (norm(bad.ast.value), " [but %s orders the numbers afterwards]" % later if later else ""))
     chk.ob("R02.3a", gc.qualname + "::every-name-looked-up", _every_name_looked_up(repo, gc, tables), gc.where(),
            "every requested column name is translated (each element of the request goes through the name lookup and its number is kept)")
     g1 = F["get_colnum"]
